@@ -151,5 +151,15 @@ void OSSLRSAPublicKey::createOSSLKey()
 	BIGNUM* bn_n = OSSL::byteString2bn(n);
 	BIGNUM* bn_e = OSSL::byteString2bn(e);
 
-	RSA_set0_key(rsa, bn_n, bn_e, NULL);
+	// The key is unusable when a component is missing; OpenSSL crashes on
+	// an RSA object that has no modulus
+	if (!RSA_set0_key(rsa, bn_n, bn_e, NULL))
+	{
+		ERROR_MSG("Could not set the RSA public key components");
+
+		BN_free(bn_n);
+		BN_free(bn_e);
+		RSA_free(rsa);
+		rsa = NULL;
+	}
 }
